@@ -35,7 +35,7 @@ LEVEL = "model_checking"
 ENGINE = "E2-BFS"
 SHARDS = {"quick": 8, "thorough": 16}
 RULE = (
-    "every history of length <= D over a 22-event menu of call outcomes on one fresh real connection per history, "
+    "every history of length <= D over a 25-event menu of call outcomes on one fresh real connection per history, "
     "probe echo(n) after each event; non-trivial = history whose last event is not the plain ok-unary; distinct = "
     "(transport, history)"
 )
@@ -84,6 +84,12 @@ LOGRAISE = {
     "onlog-unary": prog.Call("unary", {"acts": [["log", "INFO", "a"], ["log", "INFO", "b"], ["ret", 1]]}),
     "onlog-init": prog.Call("produce_h", {"hdr": 2, "init": [["log", "INFO", "i"]], "steps": STEPS3}),
     "onlog-stream": prog.Call("produce", {"steps": [[["log", "INFO", "s"], ["emit", 1, None]], [["emit", 1, None]]]}),
+    # a callback that is simply broken raises on EVERY message, also while the framework is cleaning up
+    "onlog-unary-every": prog.Call("unary", {"acts": [["log", "INFO", "a"], ["log", "WARN", "b"], ["log", "INFO", "c"], ["ret", 1]]}),
+    "onlog-init-every": prog.Call("produce_h", {"hdr": 2, "init": [["log", "INFO", "i"], ["log", "INFO", "j"]], "steps": STEPS3}),
+    "onlog-stream-every": prog.Call(
+        "produce", {"steps": [[["log", "INFO", "s"], ["log", "INFO", "t"], ["emit", 1, None]], [["log", "INFO", "u"], ["emit", 1, None]]]}
+    ),
 }
 
 
@@ -116,7 +122,7 @@ def run_history(kind: str, hist: tuple[str, ...]) -> list[dict[str, Any]]:
 
     def on_log(m: Any) -> None:
         mode["n"] += 1
-        if mode["raise_at"] is not None and mode["n"] == mode["raise_at"]:
+        if mode["raise_at"] is not None and (mode["raise_at"] == "every" or mode["n"] == mode["raise_at"]):
             raise LogBoom("on_log failed")
         trace.append(prog.log_event(m))
 
@@ -139,7 +145,7 @@ def run_history(kind: str, hist: tuple[str, ...]) -> list[dict[str, Any]]:
                     # caller or is swallowed is not asserted.  A stream session the caller did obtain is
                     # closed by the caller (as `with session:` would); a failure *inside* the unary call or
                     # inside stream initialisation leaves nothing for the caller to close.
-                    mode["raise_at"] = 1
+                    mode["raise_at"] = "every" if ev.endswith("-every") else 1
                     call = LOGRAISE[ev]
                     sess = None
                     try:
@@ -154,9 +160,13 @@ def run_history(kind: str, hist: tuple[str, ...]) -> list[dict[str, Any]]:
                     except LogBoom:
                         pass
                     finally:
-                        mode["raise_at"] = None
                         if sess is not None:
-                            sess.close()
+                            # the caller closes the session it holds; the broken callback is still installed
+                            try:
+                                sess.close()
+                            except LogBoom:
+                                pass
+                        mode["raise_at"] = None
                     rec["own"] = None
             except mem.Deadlock as e:
                 rec["own"] = f"HANG: {e}"
